@@ -22,7 +22,7 @@ NOZONE = {"name": "", "off": 0}
 def consts(today):
     zs = {z["name"]: z for z in render.usable_zones()}
     zones = [zs[n] for n in ("EST", "CET", "IST", "NPT") if n in zs][:3] + [{"name": "GMT+5:30", "off": 330}, {"name": "GMT-11:30", "off": -690}]
-    defaults = [{"name": "UTC", "off": 0}] + ([zs["CET"]] if "CET" in zs else [{"name": "GMT+1", "off": 60}])
+    defaults = [{"name": "UTC", "off": 0}] + ([zs["CET"]] if "CET" in zs else [{"name": "GMT+1", "off": 60}]) + [{"name": "GMT-3:30", "off": -210}]
     os.makedirs(os.path.join(OUT, "run"), exist_ok=True)
     p = os.path.join(OUT, "run", "c14.json")
     with open(p, "w") as f:
@@ -94,12 +94,12 @@ def run(rep):
     render.check_pool_words()
     today = int(time.time()) // 86400
     cpath, zones, defaults = consts(today)
-    rep.rule = ("TLC enumerates timestamps (13 boundary values incl. year 1, -1, 0, 2^31-1, 2^31, year 9999 and a grid) x {default zone, 5 explicit zones} x 2 default zones, "
+    rep.rule = ("TLC enumerates timestamps (13 boundary values incl. year 1, -1, 0, 2^31-1, 2^31, year 9999 and a grid) x {default zone, 5 explicit zones} x 3 default zones (UTC, one east, one west of Greenwich with minutes), "
                 "as 'N to date' / 'N to Z' and as the one-line round trip 'N to date as unix'; dates (boundary set, year-less, today / tomorrow) and times 'as unix'. "
                 "A case = one line in one keyword form; non-trivial = outside the i32 range, an explicit zone or a non-UTC default zone. Random part: uniform timestamps "
                 "of years 1..9999 and random dates, validated by TLC.")
     rep.assumptions = ["renderer lib/render.py", "projection: number -> (days, seconds) split, printed digits -> same split; date-time text -> civil fields",
-                       "'<time> as unix' is only specified under a UTC default zone", "a run that straddles 00:00 UTC re-executes the affected cases", "TLC 1.8.0"]
+                       "'<time> as unix' (no date) is only specified under a UTC default zone; '<date> at <time>' forms under every default zone", "a run that straddles 00:00 UTC re-executes the affected cases", "TLC 1.8.0"]
     r = tlc_must_pass("MC_Unix", "MC_Unix", workers=8, timeout=900)
     rep.add_tlc("MC_Unix", r)
     g = tlc("Gen_Unix", "Gen_Unix" if quick else "Gen_Unix_thorough", workers=8, timeout=1800, env={"CONSTS": cpath}, heap="8g")
